@@ -459,6 +459,7 @@ def check_features(ctx, fi, block, total):
         full = R
     E = floored(full)
     ctx.ob('floor-and-default', fi, loop, E is not None, 'the estimated total is floored at 1: `%s`' % U(full)[:200], construct='floor in ' + where)
+    floor_failed = E is None
     if E is None:
         E = full
     ev2 = MatEval({}, atoms)
@@ -466,6 +467,9 @@ def check_features(ctx, fi, block, total):
     try:
         comb = ev2.ev(E)
     except AnalysisError as e:
+        if floor_failed:
+            ctx.note('%s: combination not evaluated, the floor is already reported as missing (%s)' % (where, e))
+            return None
         raise AnalysisError('%s: combination `%s` outside the reduction dialect (%s)' % (where, U(E)[:120], e))
     w = ev2.ev(ast.parse('np.sum(__est__ / __var__) / np.sum(1 / __var__)', mode='eval').body)
     ctx.ob('combination-form', fi, loop, comb.eq(w), 'inverse-variance weighting: expected %r, source %r' % (w, comb),
